@@ -188,6 +188,18 @@ theorem All2.append {α β : Type} {R : α → β → Prop} {as as' : List α} {
   | nil => simpa using h'
   | cons hr _ ih => exact .cons hr ih
 
+theorem All2.imp {α β : Type} {R S : α → β → Prop} (hrs : ∀ a b, R a b → S a b) {as : List α} {bs : List β} (h : All2 R as bs) :
+    All2 S as bs := by
+  induction h with
+  | nil => exact .nil
+  | cons hr _ ih => exact .cons (hrs _ _ hr) ih
+
+theorem All2.map {α β γ δ : Type} {R : α → β → Prop} {S : γ → δ → Prop} (f : α → γ) (g : β → δ) (hrs : ∀ a b, R a b → S (f a) (g b))
+    {as : List α} {bs : List β} (h : All2 R as bs) : All2 S (as.map f) (bs.map g) := by
+  induction h with
+  | nil => exact .nil
+  | cons hr _ ih => exact .cons (hrs _ _ hr) ih
+
 theorem All2.refl_of {α : Type} {R : α → α → Prop} : ∀ (as : List α), (∀ a ∈ as, R a a) → All2 R as as
   | [], _ => .nil
   | a :: as, h => .cons (h a (by simp)) (All2.refl_of as (fun x hx => h x (by simp [hx])))
